@@ -79,4 +79,27 @@ NearestSetting(cfg, root, k) ==
     LET ps == {x \in Paths(cfg, Newest(cfg, root), <<>>) : k \in x[2].keys} IN
     IF ps = {} THEN NoOrigin
     ELSE Origin((CHOOSE x \in ps : \A y \in ps : y = x \/ Nearer(x[1], y[1]))[2])
+
+(* ---- the verdict on one observed collapse of `root` over configuration cfg ----
+   outcome: "values" | "error" (ConfigurationError) | "other";
+   vals: sequence of [k, name, src] (the definition that supplied key k; name "-" = absent).
+   "_Unspecified" is not a verdict on the code (input left open by the property).       *)
+JudgeRead(cfg, root, outcome, vals) ==
+    LET st == Status(cfg, root) IN
+    IF st = "Unspecified" THEN {"_Unspecified"}
+    ELSE IF st = "Error" THEN (IF outcome = "error" THEN {} ELSE {"Error_not_reported"})
+    ELSE IF ValueOf(cfg, root, "class") = NoOrigin THEN {"_Unspecified"}    \* nothing to instantiate: not collapsible
+    ELSE IF outcome = "error" THEN {"Unexpected_error"}
+    ELSE IF outcome # "values" THEN {"Unexpected_exception"}
+    ELSE LET wrong == {j \in DOMAIN vals : [name |-> vals[j].name, src |-> vals[j].src] # ValueOf(cfg, root, vals[j].k)}
+             own   == Newest(cfg, root).keys
+         IN (IF \E j \in wrong : vals[j].k \in own THEN {"Own_value_lost"} ELSE {})
+            \cup (IF \E j \in wrong : vals[j].k \notin own THEN {"Not_nearest"} ELSE {})
+
+(* ---- a LIVE manager: sources are added over time, sections are collapsed in between.
+   Whatever was collapsed before, a collapse answers for the sources present NOW:
+   Fresh is the only specification of a read.                                          *)
+Fresh(cfg, root, keys) ==
+    LET st == Status(cfg, root) IN
+    [st |-> st, vals |-> IF st = "Values" THEN [k \in keys |-> ValueOf(cfg, root, k)] ELSE [k \in keys |-> NoOrigin]]
 =========================================================================
